@@ -1,4 +1,5 @@
 import NibabelModel.Model.C11
+import NibabelModel.Model.C11_State
 import Driver.Util
 /-! Line-protocol driver for C11: `C11 <op> <args...>` -> one observable line.
 
@@ -9,6 +10,7 @@ import Driver.Util
   voff <1|2> <s|p> <userOff> <k> <len>*k                          Nifti1Header.write_to on content LENGTHS only
   f32 <n>                                                         int(np.float32(n))
   f32n <s>                                                        int(np.nextafter(np.float32(s), inf)), s a float32 ≥ 2^24
+  xst <L|B machine> <k> <tok>*k                                   history over extension objects and headers (see `parseOp?`)
   (hex: two lower-case digits per byte, "-" for the empty string) -/
 namespace Nb.Drv.C11
 open Nb Nb.C11
@@ -66,7 +68,95 @@ def showLoaded : Except Err Loaded → String
   | .ok l => "exts=" ++ showExts l.exts ++ " off=" ++ toString l.offset ++ " data=" ++ showHex l.data
   | .error er => showErr er
 
+/-! ### `xst`: histories over extension objects / headers (Model/C11_State) -/
+
+abbrev DObj := List Nat
+
+/-- the codecs of the harness' extension classes: 0 identity, 1 byte reversal (an inverse pair), 2 a normalising
+    pair that is NOT inverse (`unmangle` drops spaces, `mangle` appends a newline) -/
+def codec? (k : Nat) : Option (Codec DObj) :=
+  if k = 0 then some ⟨id, id⟩
+  else if k = 1 then some ⟨List.reverse, List.reverse⟩
+  else if k = 2 then some ⟨fun o => o ++ [10], fun b => b.filter (· != 32)⟩
+  else none
+
+def class? (name : String) : Option (String × Fmt × Bool) :=
+  match Nb.Gen.C11.State.headerClasses.find? (·.1 == name) with
+  | some (n, f, single) => if f = 1 then some (n, nifti1, single) else if f = 2 then some (n, nifti2, single) else none
+  | none => none
+
+inductive DOp where
+  | op (o : XOp DObj)
+  | newHdr (cls : String) (fmt : Fmt) (single : Bool) (e : Endian)
+
+def parseOp? (tok : String) : Option DOp :=
+  match tok.splitOn "," with
+  | ["nh", cls, en] => do
+      let (n, f, sg) ← class? cls
+      let e ← parseEndian? en
+      pure (.newHdr n f sg e)
+  | ["nr", h, pos, k, code, hx] => do
+      pure (.op (.newRaw (← h.toNat?) (← pos.toNat?) (← codec? (← k.toNat?)) (← code.toInt?) (← parseHex? hx)))
+  | ["no", h, pos, k, code, hx] => do
+      pure (.op (.newObj (← h.toNat?) (← pos.toNat?) (← codec? (← k.toNat?)) (← code.toInt?) (← parseHex? hx)))
+  | ["go", h, i] => do pure (.op (.getObj (← h.toNat?) (← i.toNat?)))
+  | ["ed", h, i, hx] => do
+      let b ← parseHex? hx
+      pure (.op (.edit (← h.toNat?) (← i.toNat?) (fun _ => b)))
+  | ["ea", h, i, hx] => do
+      let b ← parseHex? hx
+      pure (.op (.edit (← h.toNat?) (← i.toNat?) (fun o => o ++ b)))
+  | ["ct", h, i] => do pure (.op (.content (← h.toNat?) (← i.toNat?)))
+  | ["sz", h, i] => do pure (.op (.size (← h.toNat?) (← i.toNat?)))
+  | ["tt", h] => do pure (.op (.total (← h.toNat?)))
+  | ["dl", h, i] => do pure (.op (.del (← h.toNat?) (← i.toNat?)))
+  | ["sh", h, i, h2, pos] => do pure (.op (.share (← h.toNat?) (← i.toNat?) (← h2.toNat?) (← pos.toNat?)))
+  | ["cp", h] => do pure (.op (.copy (← h.toNat?)))
+  | ["fh", h, cls] => do
+      let (n, f, sg) ← class? cls
+      pure (.op (.fromHeader (← h.toNat?) n f sg))
+  | ["im", h, cls] => do
+      let (n, f, sg) ← class? cls
+      pure (.op (.mkImg (← h.toNat?) n f sg))
+  | ["so", h, off] => do pure (.op (.setOff (← h.toNat?) (← off.toNat?)))
+  | ["wh", h] => do pure (.op (.saveHdr (← h.toNat?)))
+  | ["wi", h, hx] => do pure (.op (.saveImg (← h.toNat?) (← parseHex? hx)))
+  | _ => none
+
+def showObs : XObs DObj → Option String
+  | .done => some "ok"
+  | .bad => none
+  | .obj o => some ("o=" ++ showHex o)
+  | .bytes b => some ("b=" ++ showHex b)
+  | .int n => some ("n=" ++ toString n)
+  | .err e => some (showErr e)
+  | .hdrSaved off after => some ("H off=" ++ toString off ++ " hdr=" ++ showHex after)
+  | .imgSaved (.single f l) => some ("W off=" ++ toString f.voxOffset ++ " hdr=" ++ showHex f.after ++ " img=- R " ++ showLoaded l)
+  | .imgSaved (.pair p l) => some ("W off=" ++ toString p.hdr.voxOffset ++ " hdr=" ++ showHex p.hdr.after ++ " img=" ++
+      showHex p.img ++ " R " ++ showLoaded l)
+
+def runOps (machine : Endian) : World DObj → List DOp → Option (List String)
+  | _, [] => some []
+  | w, .newHdr cls fmt single e :: ops => do
+      let rest ← runOps machine { w with hdrs := w.hdrs ++ [⟨cls, fmt, single, e, 0, [], false⟩] } ops
+      pure ("ok" :: rest)
+  | w, .op o :: ops => do
+      let r := w.step machine o
+      let s ← showObs r.2
+      let rest ← runOps machine r.1 ops
+      pure (s :: rest)
+
+def handleXst (machine k : String) (toks : List String) : String :=
+  match parseEndian? machine, k.toNat?, toks.mapM parseOp? with
+  | some m, some k, some ops =>
+      if ops.length ≠ k then "bad-op"
+      else match runOps m ⟨[], []⟩ ops with
+        | some outs => " | ".intercalate outs
+        | none => "bad-op"
+  | _, _, _ => "bad-op"
+
 def handle : List String → String
+  | "xst" :: machine :: k :: toks => handleXst machine k toks
   | "img" :: fmt :: kind :: en :: off :: dat :: k :: exts =>
       match (if fmt = "1" then some nifti1 else if fmt = "2" then some nifti2 else none),
             (if kind = "s" then some true else if kind = "p" then some false else none),
